@@ -43,8 +43,8 @@ def make_plan(tape, prop):
     for d in defs:
         owner[d["name"]] = d["name"]
         if d["k"] == "enum":
-            for mn, _ in d["members"]:
-                owner[mn] = d["name"]
+            for mem in d["members"]:
+                owner[mem[0]] = d["name"]
     file_of = {}
     assign = []
     hi = 0
@@ -109,8 +109,8 @@ class Arrangement(object):
         for d, f in zip(self.defs, plan["assign"]):
             owner[d["name"]] = f
             if d["k"] == "enum":
-                for mn, _ in d["members"]:
-                    owner[mn] = f
+                for mem in d["members"]:
+                    owner[mem[0]] = f
         self.includes = {f: [] for f in self.files}
         for d, f in zip(self.defs, plan["assign"]):
             for r in sorted(_refs(d)):
@@ -377,7 +377,7 @@ class FsRun(object):
         try:
             mods = simworld.import_generated(sources)
         except Exception as e:
-            enumerators = set(n for d in schema["defs"] if d["k"] == "enum" for n, _ in d["members"])
+            enumerators = set(m[0] for d in schema["defs"] if d["k"] == "enum" for m in d["members"])
             import re
             m = re.search(r"name '(\w+)' is not defined", str(e))
             if arr.ext == ".xml" and isinstance(e, NameError) and m and m.group(1) in enumerators:
@@ -401,7 +401,7 @@ class FsRun(object):
         multi = _MultiWorld(mods)
         # constants
         for d in concat["defs"]:
-            names = [d["name"]] if d["k"] == "const" else [n for n, _ in d["members"]] if d["k"] == "enum" else []
+            names = [d["name"]] if d["k"] == "const" else [m[0] for m in d["members"]] if d["k"] == "enum" else []
             for n in names:
                 a = getattr(single.module, n, None)
                 b = next((m.__dict__[n] for m in mods.values() if n in m.__dict__), None)
